@@ -58,7 +58,7 @@ class DefGen:
             return r.choice(["true", "false", True, False])
         if t == "string":
             # (string defaults are arbitrary text: quotes, backslashes, non-ASCII inside and outside the BMP)
-            texts = ["", "abc", "abc", "it's", 'say "hi"', "back\\slash", "caf\u00e9", "\u65e5\u672c", "v1-\U0001f680"]
+            texts = ["", "abc", "abc", " n/a ", "x ", "\tq", "it's", 'say "hi"', "back\\slash", "caf\u00e9", "\u65e5\u672c", "v1-\U0001f680"]
             return r.choice(texts + ["null"]) if nullable_all else r.choice(texts)
         if t == "float64":
             return r.choice(["0.0", 0.0, "-0.0"])       # integer spellings are outside the supported subset
@@ -253,6 +253,7 @@ def crafted() -> list[dict]:
               F("LogAppendTimeMs", "int64", versions="2+", default="-1"),
               F("Gone", "int8", versions="0-1"),
               F("Middle", "string", versions="1-2", default="abc"),
+              F("Padded", "string", versions="1+", default=" n/a "),
               F("Motto", "string", versions="1+", default="caf\u00e9 \u65e5\u672c v1-\U0001f680 \"q\" 'a' \\"),
               F("Groups", "[]Zc1Group", nullableVersions="3+", fields=[
                   F("GroupId", "string", entityType="groupId"),
